@@ -42,7 +42,7 @@ def main():
                     fails += 1; print('FAIL label=eval.array_load.index_outside_the_array_is_a_located_runtime_error program=%s detail=%s[] read at index %d must be a located Runtime error: exit %s, printed %r' % (json.dumps(src), ty, idx, rc, out.strip()[-160:]))
     CASTS = [('int n = 3; float w = (float)n; echo(w / 2);', ['1.5'], 'eval.cast.to_float'), ('float f = 3.99f; int t = (int)f; echo(t);', ['3'], 'eval.cast.to_int'),
              ('float f = 0.0f; f = f - 3.99f; int t = (int)f; echo(t);', ['-3'], 'eval.cast.to_int'), ('float f = 2.5f; bit b = (bit)f; echo(b);', ['1'], 'eval.cast.to_bit'),
-             ('int z = 0; bit b = (bit)z; echo(b); int k = 7; bit c = (bit)k; echo(c);', ['0', '1'], 'eval.cast.to_bit'), ('bit b = 1b; int i = (int)b; float g = (float)b; echo(i); echo(g + 0.5f);', ['1', '1.5'], 'eval.cast.to_int'),
+             ('int z = 0; bit b = (bit)z; echo(b); int k = 6; bit c = (bit)k; echo(c);', ['0', '1'], 'eval.cast.to_bit'), ('bit b = 1b; int i = (int)b; float g = (float)b; echo(i); echo(g + 0.5f);', ['1', '1.5'], 'eval.cast.to_int'),
              ('int i = 5; long l = (long)i; echo(l * 1000000 * 1000000);', ['5000000000000'], 'eval.cast.to_long_widens')]
     for bodyc, want, lab in CASTS:
         src = 'function main() -> void { %s }\n' % bodyc
